@@ -173,4 +173,36 @@ def expectedCallerFacts : List String :=
    "site direct/inference.py: write_output_to_h5",
    "site direct/nn/mri_models.py: self.reconstruct_volumes"]
 
+/-! ## Phase 4 — the 3-D branch of `MRIModelEngine.evaluate`
+
+```
+sc, c, z, x, y = volume.shape
+volume_for_eval = volume.clone().transpose(1, 2).reshape(sc * z, c, x, y)
+```
+A yielded 3-D volume is modelled as `vol[s][ch][t]` (slice, channel, frame; an entry is an image).
+`transpose(1, 2)` swaps the channel and the frame axis of every slice (`transpose12`), and the `reshape`
+of a tensor of logical shape `(sc, z, c, …)` to `(sc * z, c, …)` is the row-major merge of the two
+leading axes, i.e. list concatenation (`evalReshape`). -/
+
+/-- `s.transpose(0, 1)` of one slice `s[ch][t]` with `z` frames: `[t][ch]` -/
+def transpose12 {β} (z : Nat) (s : List (List β)) : List (List β) :=
+  (List.range z).map fun t => s.filterMap (·[t]?)
+
+/-- `volume.transpose(1, 2).reshape(sc * z, c, x, y)`: row `j` of the result, channel `ch` -/
+def evalReshape {β} (z : Nat) (vol : List (List (List β))) : List (List β) :=
+  (vol.map (transpose12 z)).flatten
+
+/-- the (slice, frame) pair that row `j` of the merged tensor comes from -/
+def evalSrc (z j : Nat) : Nat × Nat := (j / z, j % z)
+
+/-- what the translator must read in the `ndim == 3` branch of `evaluate` (`ROWS` = the translated kernel
+`Gen.C14.eval3d_rows`, `d0 * d2` up to commutativity) -/
+def expectedEval3dFacts : List String :=
+  ["dims of VOL.shape: 5",
+   "ndim == 3: EVAL_VOL=VOL.clone().transpose(1, 2).reshape(ROWS, d1, d3, d4)",
+   "ndim == 3: EVAL_TGT=TGT.clone().transpose(1, 2).reshape(ROWS, d1, d3, d4)",
+   "otherwise: EVAL_VOL=VOL.clone()",
+   "otherwise: EVAL_TGT=TGT.clone()",
+   "metric_fn(EVAL_TGT, EVAL_VOL)"]
+
 end DirectVerif.Recon
